@@ -22,13 +22,14 @@ pub enum Edit {
 #[derive(Clone, Debug, PartialEq, Eq, Hash, Serialize, Deserialize)]
 pub enum St {
     Multi { s: Scheme, n: usize, edit: Option<Edit> },
-    From(Vec<Scheme>),
+    /// sequence of (scheme label, point value: false = honest signature, true = the identity point)
+    From(Vec<(Scheme, bool)>),
 }
 
 #[derive(Clone, Debug, PartialEq)]
 pub enum Act {
     Edit(Edit),
-    Append(Scheme),
+    Append(Scheme, bool),
 }
 
 pub struct M07<C: Suite> {
@@ -78,7 +79,7 @@ impl<C: Suite> Model for M07<C> {
     }
     fn actions(&self, st: &St) -> Vec<Act> {
         match st {
-            St::From(l) if l.len() < 3 => SCHEMES.iter().map(|s| Act::Append(*s)).collect(),
+            St::From(l) if l.len() < 3 => SCHEMES.iter().flat_map(|s| [Act::Append(*s, false), Act::Append(*s, true)]).collect(),
             St::Multi { n, edit: None, .. } => {
                 let mut a = vec![];
                 for i in 0..*n {
@@ -104,9 +105,9 @@ impl<C: Suite> Model for M07<C> {
     }
     fn step(&self, st: &St, a: &Act) -> Option<St> {
         match (st, a) {
-            (St::From(l), Act::Append(s)) => {
+            (St::From(l), Act::Append(s, z)) => {
                 let mut l = l.clone();
-                l.push(*s);
+                l.push((*s, *z));
                 Some(St::From(l))
             }
             (St::Multi { s, n, edit: None }, Act::Edit(e)) => Some(St::Multi { s: *s, n: *n, edit: Some(*e) }),
@@ -115,7 +116,7 @@ impl<C: Suite> Model for M07<C> {
     }
     fn describe(&self, st: &St) -> String {
         match st {
-            St::From(l) => format!("{} MultiSignature::from_signatures over schemes {:?}", C::G, l.iter().map(|s| s.name()).collect::<Vec<_>>()),
+            St::From(l) => format!("{} MultiSignature::from_signatures over (scheme, is identity point) {:?}", C::G, l.iter().map(|(s, z)| (s.name(), *z)).collect::<Vec<_>>()),
             St::Multi { s, n, edit } => format!("{} {} n={} edit={:?}: multi-signature of n signers verified against the (edited) accumulated key / message", C::G, s.name(), n, edit),
         }
     }
@@ -127,22 +128,40 @@ impl<C: Suite> Model for M07<C> {
         o.nontrivial = true;
         match st {
             St::From(l) => {
-                let sigs: Vec<Signature<C>> = l.iter().enumerate().map(|(i, s)| self.sigs[s.idx()][i]).collect();
+                let sigs: Vec<Signature<C>> = l.iter().enumerate().map(|(i, (s, z))| if *z { mk_sig::<C>(*s, SgP::<C>::identity()) } else { self.sigs[s.idx()][i] }).collect();
                 let r = guard(|| MultiSignature::<C>::from_signatures(&sigs));
-                o.calls(1);
-                let want = l.len() >= 2 && l.iter().all(|s| *s == l[0]) && l[0] != Scheme::Aug;
+                let r2 = guard(|| MultiSignature::<C>::try_from(sigs.as_slice()));
+                o.calls(2);
+                let same = l.iter().all(|(s, _)| *s == l[0].0);
+                let any_identity = l.iter().any(|(_, z)| *z);
+                let want = l.len() >= 2 && same && l[0].0 != Scheme::Aug;
                 let ok = matches!(r, Ok(Ok(_)));
                 o.outcome(if ok { "from:ok" } else { "from:err" });
                 let cls = if l.len() < 2 {
                     "fewer-than-two"
-                } else if l.iter().any(|s| *s == Scheme::Aug) && l.iter().all(|s| *s == l[0]) {
+                } else if l.iter().any(|(s, _)| *s == Scheme::Aug) && same {
                     "augmentation"
                 } else if want {
                     "same-scheme"
                 } else {
                     "mixed-schemes"
                 };
-                o.expect(&format!("C07:from_signatures:{}:{}", g, cls), ok == want && r.is_ok(), if want { "Ok" } else { "Err" }, verdict(&r));
+                o.expect(&format!("C07:from_signatures-routes-agree:{}", g), matches!(r2, Ok(Ok(_))) == ok && r2.is_ok(), verdict(&r), verdict(&r2));
+                if want && any_identity {
+                    // whether identity valued entries of the right scheme are accumulated or refused is left open;
+                    // a result, if any, is the plain sum
+                    o.outcome("from:same-scheme-with-identity-entries-recorded");
+                    if let Ok(Ok(m)) = &r {
+                        let mut sum = SgP::<C>::identity();
+                        for x in &sigs {
+                            sum += x.as_raw_value();
+                        }
+                        o.expect(&format!("C07:from_signatures-with-identity-entries-is-sum:{}", g), *m.as_raw_value() == sum, "the plain sum", "differs");
+                    }
+                } else {
+                    let cls = if any_identity { format!("{}-with-identity-entries", cls) } else { cls.to_string() };
+                    o.expect(&format!("C07:from_signatures:{}:{}", g, cls), ok == want && r.is_ok(), if want { "Ok" } else { "Err" }, verdict(&r));
+                }
             }
             St::Multi { s, n, edit } => {
                 let (s, n) = (*s, *n);
